@@ -79,6 +79,8 @@ type Case struct {
 	Pending    []Region `json:",omitempty"`
 	Cut        int      `json:",omitempty"` // cut: number of full-sync batches delivered before the connection drops
 	FailIDs    []uint64 `json:",omitempty"` // cut: regions whose SaveRegion fails on the follower
+	FCached    []Region `json:",omitempty"` // chain: regions the follower cached while it was the leader itself (heartbeats, term FTerm)
+	FTerm      uint64   `json:",omitempty"`
 	FStored    []Region `json:",omitempty"` // chain: metas in the follower's own region storage before it starts
 	Msgs       []Msg    `json:",omitempty"`
 	FCache     []Region `json:",omitempty"`
@@ -100,10 +102,10 @@ func keyNum(b []byte) uint64 {
 	if len(b) == 0 {
 		return 0
 	}
-	if len(b) != 8 {
+	if len(b) < 8 {
 		panic("unexpected key")
 	}
-	return binary.BigEndian.Uint64(b)
+	return binary.BigEndian.Uint64(b[:8]) // the big-window probe pads its keys to 100 bytes
 }
 
 func (p Peer) pb() *metapb.Peer {
@@ -245,9 +247,15 @@ func (c Case) coq() string {
 		return fmt.Sprintf("CCut %s\n  %s\n  %d%%nat %s\n  %s\n  %s\n  %s\n  %s", optU(c.LP), coqRegions(c.Regions), c.Cut, coqU64s(c.FailIDs),
 			coqRegions(c.Pending), coqMsgs(c.Msgs), coqRegions(c.FCache), coqfmt.ZU(c.FNext))
 	case "chain":
-		st := make([]string, len(c.FStored))
-		for i, r := range c.FStored {
-			st[i] = r.coqMeta()
+		var st []string
+		for _, r := range c.FCached {
+			st = append(st, r.coq())
+		}
+		for _, r := range c.FStored { // what LoadRegionsOnce builds: no leader, no statistics
+			q := r
+			q.Leader = nil
+			q.BW, q.BR, q.KW, q.KR = 0, 0, 0, 0
+			st = append(st, q.coq())
 		}
 		return fmt.Sprintf("CChain %s\n  %s\n  %s\n  %s\n  %s\n  %s\n  %s\n  %s\n  %s", optU(c.LP), coqRegions(c.LRecs), coqRegions(c.Regions),
 			optU(c.FP), coqfmt.List(st), coqRegions(c.Pending), coqMsgs(c.Msgs), coqRegions(c.FCache), coqfmt.ZU(c.FNext))
@@ -764,6 +772,71 @@ func runCut(R *res.Result, c Case) Case {
 	return c
 }
 
+// bigWindowProbe: a follower that is a whole history window behind (capped at 40000 records) must catch up through
+// the real gRPC transport with the client's own dial options: the leader answers with ONE message carrying the whole
+// window (records of ~300 bytes: 100-byte keys), which has to stay below the client's MaxCallRecvMsgSize.
+func bigWindowProbe(R *res.Result) {
+	n := syncer.VerifDefaultHistoryBufferSize
+	if n > 40000 {
+		n = 40000
+	}
+	const base = 7
+	leader := newNode("leader", u64p(base), true)
+	follower := newNode("follower", u64p(base), true)
+	key := func(k int) []byte {
+		b := make([]byte, 100)
+		binary.BigEndian.PutUint64(b, uint64(k))
+		return b
+	}
+	bytes := 0
+	for i := 0; i < n; i++ {
+		m := &metapb.Region{Id: uint64(i + 1), StartKey: key(i + 1), EndKey: key(i + 2), RegionEpoch: &metapb.RegionEpoch{ConfVer: 1, Version: 1},
+			Peers: []*metapb.Peer{{Id: uint64(i+1)*10 + 1, StoreId: 1}, {Id: uint64(i+1)*10 + 2, StoreId: 2}, {Id: uint64(i+1)*10 + 3, StoreId: 3}}}
+		bytes += m.Size() + 30
+		leader.syncer.VerifHistory().Record(core.NewRegionInfo(m, m.Peers[0], core.SetWrittenBytes(uint64(i)), core.SetReadKeys(3)))
+	}
+	stub := &pdStub{leader: leader.syncer}
+	gs := grpc.NewServer()
+	pdpb.RegisterPDServer(gs, stub)
+	lis, err := net.Listen("tcp", "127.0.0.1:0")
+	if err != nil {
+		panic(err)
+	}
+	go gs.Serve(lis)
+	follower.syncer.StartSyncWithLeader("http://" + lis.Addr().String())
+	want := uint64(base + n)
+	deadline := time.Now().Add(7 * time.Second)
+	ok := false
+	for time.Now().Before(deadline) {
+		if follower.syncer.VerifHistory().GetNextIndex() == want && len(follower.srv.bc.GetRegions()) == n {
+			ok = true
+			break
+		}
+		time.Sleep(2 * time.Millisecond)
+	}
+	stub.mu.Lock()
+	sent := len(stub.msgs)
+	stub.mu.Unlock()
+	R.Count("probe:big-window")
+	if !ok {
+		R.Violate("C16:incr-sync:sent-but-never-applied",
+			fmt.Sprintf("a follower %d records (~%d bytes in one message) behind, inside the leader's history window, never catches up: the leader answered %d time(s), the follower's next index is %d instead of %d (the message exceeds the client's receive limit and is retried for ever)",
+				n, bytes, sent, follower.syncer.VerifHistory().GetNextIndex(), want),
+			map[string]interface{}{"probe": "big-window", "records": n, "approx_bytes": bytes})
+	}
+	cleanup.Add(1)
+	go func() {
+		defer cleanup.Done()
+		follower.syncer.StopSyncWithLeader()
+		gs.Stop()
+		for _, nd := range []*node{leader, follower} {
+			nd.cancel()
+			nd.rs.Close()
+			os.RemoveAll(nd.dir)
+		}
+	}()
+}
+
 func genCut(r *rng.R, k int) Case {
 	sizes := []int{101, 150, 230, 250}
 	n := sizes[k%len(sizes)]
@@ -799,6 +872,14 @@ func runSync(R *res.Result, c Case) Case {
 	}
 	for _, r := range c.LRecs {
 		leader.syncer.VerifHistory().Record(r.info())
+	}
+	for _, r := range c.FCached {
+		// the ex-leader's cache: built from region heartbeats, so the regions carry a raft term
+		hb := &pdpb.RegionHeartbeatRequest{Region: r.metaPB(), Term: c.FTerm, BytesWritten: r.BW, BytesRead: r.BR, KeysWritten: r.KW, KeysRead: r.KR}
+		if r.Leader != nil {
+			hb.Leader = r.Leader.pb()
+		}
+		follower.srv.bc.PutRegion(core.RegionFromHeartbeat(hb))
 	}
 	if len(c.FStored) > 0 {
 		sorted := append([]Region(nil), c.FStored...)
@@ -1143,7 +1224,28 @@ func genChain(r *rng.R, k int) Case {
 	if r.Pct(50) {
 		c.FP = u64p(0)
 	}
+	exLeader := k%2 == 1 // the follower was the leader before: its cache holds heartbeat-built regions with terms > 0
+	if exLeader {
+		c.FTerm = uint64(2 + r.Intn(20))
+	}
 	for _, reg := range c.Regions {
+		if exLeader {
+			if r.Pct(50) {
+				o := reg
+				if o.ConfVer > 1 && r.Bool() {
+					o.ConfVer--
+				}
+				if len(o.Peers) > 0 {
+					p := o.Peers[len(o.Peers)-1]
+					if !p.Learner {
+						o.Leader = &p
+					}
+				}
+				o.BW, o.KW = uint64(r.Intn(1<<20)), uint64(r.Intn(1<<12))
+				c.FCached = append(c.FCached, o)
+			}
+			continue
+		}
 		if r.Pct(40) { // an older version of the same region (same id and range, epochs not larger, other peers)
 			o := reg
 			o.Leader = nil
@@ -1315,6 +1417,7 @@ func main() {
 			*nchain *= 4
 			*ncut *= 4
 		}
+		bigWindowProbe(R)
 		// S8 regression (fixed by 3a92c2a): a reset is persisted
 		emit(runBuf(R, 10, []BufOp{{K: "record", Arg: 1, OK: true}, {K: "reset", Arg: 1000000, OK: true}, {K: "record", Arg: 2, OK: true},
 			{K: "next"}, {K: "restart", Arg: 10, OK: true}, {K: "next"}}))
